@@ -72,6 +72,7 @@ impl Stats {
         }
         self.digests.push(r.trace_digest);
         self.run_wall_us += r.wall_us;
+        self.sim_ticks += r.sim_ticks;
         if inv.plan.crash_at.is_some() && r.code == 137 {
             *self.faults.entry("crash".into()).or_insert(0) += 1;
         }
